@@ -21,6 +21,11 @@ CHECKS = {
             "of every recorded execution.", "8 C05"),
     "C06": ("model_checking", "Obs.tla keeps the promised priority of every bar (default = creation order, immediate and lazy changes, hand-over to "
             "a queued successor) and checks every stored frame's order, with the one-frame exemption after a lazy change.", "8 C06"),
+    "C07": ("model_checking", "Fill.tla (the bar filler as a step machine over component widths; termination as a liveness property, exact body "
+            "width and never-too-wide as invariants) and Row.tla (decorator layout, cut with ellipsis, spacing) are model-checked by TLC; every "
+            "terminated call / layout TLC enumerates is replayed on the real fillers (2 palettes x 2 directions, spinner) and on one-frame containers.", "8 C07"),
+    "C08": ("model_checking", "FillArith.tla: monotone, bounded, nearest-cell and end-point clauses checked by TLC over a grid; its table is replayed "
+            "on the real filler at scales up to MaxInt64; random int64 triples are judged by exact integer arithmetic; refill clauses via Fill.tla rows.", "8 C08"),
     "C09": ("model_checking", "BarState.tla (one action per mutator, phases live/term/exited) is model-checked by TLC (invariants and action "
             "properties of the documented rules); TLC emits its complete labelled transition relation and every transition (quick: a seeded "
             "sample) is replayed on a real bar as path+edge, the getters after every call being explained by a subset construction over the relation.", "8 C09"),
@@ -47,6 +52,8 @@ TECH0 = {p: "TLA+ trace validation (TLC on Obs.tla) of gate-scheduled executions
         for p in CHECKS}
 TECH = dict(TECH0)
 TECH["C10"] = "TLC linearizability search (BarLin.tla over BarState.tla) on recorded histories; Go race detector on free-running workers"
+TECH["C07"] = "TLC model checking of Fill.tla (liveness + invariants) and Row.tla; replay of the TLC-computed tables on the real fillers"
+TECH["C08"] = "TLC evaluation of FillArith.tla over a grid; table replay at int64 scales; exact-arithmetic oracle on random int64 inputs"
 TECH["C09"] = "TLC model checking of BarState.tla + replay of its TLC-emitted transition relation on the real Bar"
 TECH["C11"] = "TLC model checking of BarState.tla + replay of its transition relation; TLA+ trace validation (Obs.tla) of gate-scheduled executions"
 
